@@ -65,7 +65,8 @@ def gen_shape(rng, f):
 def gen_dirs(rng):
     nd = rng.choice([3, 4, 8, 12, 24])
     if rng.random() < 0.7:
-        off = rng.choice([0.0, 5.0, 7.5, 90.0, 352.5])
+        # also axes that are not ascending in [0, 360): negative labels, or starting mid-circle and wrapping through north
+        off = rng.choice([0.0, 5.0, 7.5, 90.0, 352.5, 200.0, 200.0, -90.0, -157.5])
         d = [off + j * 360.0 / nd for j in range(nd)]
         if rng.random() < 0.5:
             d = [x % 360.0 for x in d]
